@@ -44,7 +44,7 @@ RULE = ("streams of X slices for 1-3 ranks: (i) exhaustive grid = wrap position 
         "counter-gap pattern x start epoch x input order; (ii) random structured multi-rank/multi-job streams with "
         "0-3 wraps, random host epochs, freq in {256,512,1024,2048}, optional shuffling, hex counters, attr/args form; "
         "(iii) malformed/non-hypothesis streams (decreasing counters, >= 1 period slices, host jitter, zero-length "
-        "Exec, equal-ts Exec, negative ts, non-X events, --ignore_crit). A case is non-trivial when a 2^32 boundary "
+        "Exec, equal-ts Exec (no longer a crash since /repo 9ff54c0), negative ts, non-X events, --ignore_crit). A case is non-trivial when a 2^32 boundary "
         "lies inside the counter span of at least one rank (some slice needs a non-zero correction relative to "
         "another) or an error/drop branch fires; distinct = distinct canonical case")
 TRUSTED = ["IEEE doubles of the real code are exact on the generated grid; off-grid rounding at an exact epoch boundary "
@@ -102,27 +102,39 @@ def _jobs():
     return _JOBS
 
 
+WANT = ["normalize_phase1", "pipeline_barrier", "normalize_phase2", "event_sanity_checks"]
+_SHAPE_PROBLEMS: list[str] = []
+
+
 def _stages(freq: int, ic: int):
-    """pristine (callback, context, kwargs) of the four registered stages for this command line"""
+    """the registered sub-pipeline normalize_phase1 .. event_sanity_checks of this command line, in registration
+    order, with fresh copies of its contexts (sharing preserved; the barrier context is the module singleton)"""
+    import aiu_trace_analyzer.pipeline.barrier as barrier_mod
     key = (freq, ic)
     if key not in _STAGE_CACHE:
         argv = [f"--freq={freq}:1100"] + (["--ignore_crit"] if ic else [])
         with contextlib.redirect_stdout(io.StringIO()):
             rec = stage.cli_stages(argv)
-        names = [r["name"] for r in rec]
-        i = names.index("normalize_phase1")
-        want = ["normalize_phase1", "pipeline_barrier", "normalize_phase2", "event_sanity_checks"]
-        sub = [r for r in rec[i:] if r["registered"]][:4]
-        if [r["name"] for r in sub] != want:
-            raise RuntimeError(f"registration order changed: {[r['name'] for r in sub]}")
-        assert sub[0]["context"] is sub[2]["context"], "phase 1 and phase 2 no longer share their context"
+        reg = [r for r in rec if r["registered"]]
+        names = [r["name"] for r in reg]
+        idx = [names.index(n) for n in ("normalize_phase1", "normalize_phase2", "event_sanity_checks") if n in names]
+        sub = reg[min(idx):max(idx) + 1]
+        if [r["name"] for r in sub] != WANT:
+            _SHAPE_PROBLEMS.append(f"registered sub-pipeline is {[r['name'] for r in sub]}, the model assumes {WANT}")
+        elif sub[0]["context"] is not sub[2]["context"]:
+            _SHAPE_PROBLEMS.append("normalize_phase1 and normalize_phase2 no longer share one NormalizationContext")
         _STAGE_CACHE[key] = sub
     sub = _STAGE_CACHE[key]
-    nctx = copy.deepcopy(sub[0]["context"])       # fresh state, real constructor arguments
-    return [(sub[0]["callback"], nctx, sub[0]["kwargs"]),
-            (sub[1]["callback"], sub[1]["context"], sub[1]["kwargs"]),
-            (sub[2]["callback"], nctx, sub[2]["kwargs"]),
-            (sub[3]["callback"], sub[3]["context"], sub[3]["kwargs"])]
+    copies = {}
+    out = []
+    for r in sub:
+        c = r["context"]
+        if c is not None and c is not barrier_mod._main_barrier_context:
+            if id(c) not in copies:
+                copies[id(c)] = copy.deepcopy(c)      # fresh state, real constructor arguments
+            c = copies[id(c)]
+        out.append((r["callback"], c, r["kwargs"]))
+    return out
 
 
 def _real_event(e):
@@ -204,16 +216,12 @@ def hypothesis_ranks(case):
 
 
 def _freqstats_would_divide_by_zero(case):
-    """documented crash of frequency_stats, not a C05 matter: zero-length Exec slice, or two consecutive Exec slices of
-    a pid with equal ts"""
-    last = {}
+    """documented crash of frequency_stats (float(dur_cycles) / event["dur"]), not a C05 matter: a Cmpt Exec device
+    slice of zero host duration inside the event window"""
     for e in case["events"]:
         if e["ph"] == "X" and e["tsx"] is not None and "Cmpt Exec" in e["name"]:
-            if Fraction(e["ts"]) + Fraction(e.get("dur", 0)) < 0:
-                continue
-            if Fraction(e["dur"]) == 0 or last.get(e["pid"]) == Fraction(e["ts"]):
+            if Fraction(e["ts"]) + Fraction(e.get("dur", 0)) >= 0 and Fraction(e["dur"]) == 0:
                 return True
-            last[e["pid"]] = Fraction(e["ts"])
     return False
 
 
@@ -349,16 +357,11 @@ def random_case(ctx: Ctx):
                 D += M32
         else:
             D = rng.randrange(0, 4 * M32)
-        seen_exec_ts = set()
         evs = []
         for ptype, t5 in slices:
             uid += 1
             e = dev_slice(uid, pid, ptype, t5, f, H, D, job=rng.randrange(njobs),
                           attr=rng.random() < 0.5, hex=rng.random() < 0.2)
-            if ptype == "Exec":
-                if e["ts"] in seen_exec_ts:
-                    continue
-                seen_exec_ts.add(e["ts"])
             if rng.random() < 0.08:
                 e["name"] = e["name"].replace("k", "SenRdmaReceive_", 1)
             evs.append(e)
@@ -525,6 +528,10 @@ def run(ctx: Ctx):
         cases.append(case)
         reals.append(real)
     ctx.extra["exhaustive"] = False
+    for pb in sorted(set(_SHAPE_PROBLEMS)):
+        if not any(b["what"].endswith(pb) for b in ctx.broken):
+            ctx.obligation_broken("pipeline shape (normalize_phase1 < pipeline_barrier < normalize_phase2 < "
+                                  "event_sanity_checks, shared context): " + pb, pb)
     if ctx.search_mode or not ctx.driver or not ctx.driver.ok:
         return
     outs = ctx.driver.ask([line(c) for c in cases] + [line(SENTINEL, "old")])
